@@ -179,10 +179,15 @@ static double table_mu(setdef const *first, int i, double x)
     double y = i == 0 ? (double)a_mf((unsigned int)first->kind, (a_real)x, first->p) : (double)a_mf(A_MF_TRI, (a_real)x, i == 1 ? t1 : t2);
     return y > (double)A_REAL_EPSILON ? y : 0;
 }
-static void table_scenario(int oi, int mode, int ke, int kec)
+/* tiny = 1: the error sits a hair inside the foot of the first set (membership 2^-12 for float, 2^-27 otherwise:
+   active, and in the float and double builds the product of two such grades is below machine epsilon; a grade small enough
+   for that in the long double build has no 32-bit rational code) and stays there */
+static void table_scenario_(int oi, int mode, int ke, int kec, int tiny)
 {
-    static int const sets[] = {0, 3, 3, 0, 1, 1, 4, 4};
-    int const n = 8;
+    static double const sets0[] = {0, 3, 3, 0, 1, 1, 4, 4};
+    double sets[8];
+    int const n = tiny ? 2 : 8;
+    for (int i = 0; i < 8; ++i) { sets[i] = tiny ? -1 + ldexp(1.0, sizeof(a_real) == 4 ? -12 : -27) : sets0[i]; }
     a_pid_fuzzy ctx;
     a_real te[16], tec[16];
     unsigned char raw[64 + A_PID_FUZZY_BFUZZ(3) + 64];
@@ -226,6 +231,7 @@ static void table_scenario(int oi, int mode, int ke, int kec)
     fputs("]}\n", f);
     ++n_ctl;
 }
+static void table_scenario(int oi, int mode, int ke, int kec) { table_scenario_(oi, mode, ke, kec, 0); }
 
 static void neuro_scenario(int mode, int wset, int const *sets, int const *fdbs, int n)
 {
@@ -401,6 +407,9 @@ controllers:;
     for (int oi = 0; oi < 7; ++oi)
     {
         for (int k = 0; k < NKINDS; ++k) { table_scenario(oi, 1 + (k + oi) % 2, k, (k + 1) % NKINDS); }
+        /* joint memberships far below machine epsilon: triangle (index 7) for both inputs, a single rule fires */
+        table_scenario_(oi, 1, 7, 7, 1);
+        table_scenario_(oi, 2, 7, 7, 1);
     }
     for (int mode = 0; mode < 2; ++mode)
     {
